@@ -3,6 +3,7 @@
    the Exec model; pipe_file j is the read end of the pipe behind stage j's stdout. *)
 From Coq Require Import List NArith Bool Arith.
 Require Import SP.Base.Str SP.Lib.Builder SP.Lib.Pipeline SP.Proofs.PipelineProofs.
+Require SP.Lib.DropOrder SP.Proofs.DropProofs.
 Import ListNotations.
 Local Open Scope nat_scope.
 
@@ -48,3 +49,59 @@ Example C13_nonvacuous :
   | None => False
   end.
 Proof. vm_compute. repeat split; repeat constructor. Qed.
+
+(* stderr_to f: every command's standard error is the one file f (one open file description, shared through
+   the Rc), the rest of the wiring as above; a command with a stderr setting of its own makes the call panic *)
+Theorem C13_stderr_shared : forall p f,
+  2 <= length (p_cmds p) -> Forall plain_err (p_cmds p) -> p_data p = None -> p_errfile p = Some f -> p_in p <> BMerge ->
+  exists ls, ppopen (fun _ => false) p = (ls, OOk) /\ length ls = length (p_cmds p)
+    /\ forall i c, nth_error (p_cmds p) i = Some c ->
+         exists l, nth_error ls i = Some l /\ l_argv l = argv_of c /\ l_err l = BFile f
+           /\ l_in l = (match i with 0 => p_in p | S j => pipe_file j end)
+           /\ l_out l = (if S i =? length (p_cmds p) then p_out p else BPipe).
+Proof. exact pipeline_stderr_shared. Qed.
+Print Assumptions C13_stderr_shared.
+
+Theorem C13_stderr_to_conflict_panics : forall p f c,
+  p_data p = None -> p_errfile p = Some f -> In c (p_cmds p) -> b_err c <> BNone ->
+  forall fails, ppopen fails p = ([], OPanic).
+Proof. exact stderr_to_conflict_panics. Qed.
+Print Assumptions C13_stderr_to_conflict_panics.
+
+(* capture / communicate: the last command's stdout and every command's stderr go to the capture pipes, the
+   input data is taken out for the communicator *)
+Theorem C13_capture_wiring : forall p,
+  2 <= length (p_cmds p) -> Forall plain_err (p_cmds p) -> p_in p <> BMerge ->
+  exists ls, fst (setup_comm (fun _ => false) p) = (ls, OOk) /\ length ls = length (p_cmds p)
+    /\ snd (setup_comm (fun _ => false) p) = p_data p
+    /\ forall i c, nth_error (p_cmds p) i = Some c ->
+         exists l, nth_error ls i = Some l /\ l_argv l = argv_of c /\ l_err l = BFile ERR_CAPTURE
+           /\ l_in l = (match i with 0 => p_in p | S j => pipe_file j end)
+           /\ l_out l = BPipe.
+Proof. exact capture_wiring. Qed.
+Print Assumptions C13_capture_wiring.
+
+(* join and capture report the status of the last command; a command that cannot be started yields that
+   error and never a status *)
+Theorem C13_join_status_is_last : forall p status,
+  2 <= length (p_cmds p) -> Forall plain (p_cmds p) -> p_data p = None -> p_errfile p = None -> p_in p <> BMerge ->
+  pjoin (fun _ => false) p status = JStatus (status (length (p_cmds p) - 1)).
+Proof. exact join_status_is_last. Qed.
+Print Assumptions C13_join_status_is_last.
+
+Theorem C13_capture_status_is_last : forall p status,
+  2 <= length (p_cmds p) -> Forall plain_err (p_cmds p) -> p_in p <> BMerge ->
+  pcapture (fun _ => false) p status = JStatus (status (length (p_cmds p) - 1)).
+Proof. exact capture_status_is_last. Qed.
+Print Assumptions C13_capture_status_is_last.
+
+Theorem C13_join_failure_is_error : forall p k status,
+  k < length (p_cmds p) -> forall s, pjoin (fun i => i =? k) p status <> JStatus s.
+Proof. exact join_failure_is_error. Qed.
+Print Assumptions C13_join_failure_is_error.
+
+(* ... and only after all commands have exited: join's wait for the last command is followed by the drop of
+   the vector, which waits for every other one (Lib/DropOrder.v) *)
+Theorem C13_join_waits_for_all : forall held j, j < length held -> In (SP.Lib.DropOrder.AWait j) (SP.Lib.DropOrder.acts (SP.Lib.DropOrder.HJoinPipe false held)).
+Proof. intros held. exact (SP.Proofs.DropProofs.nondetached_waits_for_all (SP.Lib.DropOrder.HJoinPipe false held)). Qed.
+Print Assumptions C13_join_waits_for_all.
